@@ -216,13 +216,13 @@ def check(casefile, scratch, coqdir, limit=40):
             f.write("Definition %s : anode := build %s.\n" % (name, glist([gevent(e) for e in sx_parse(evs)])))
         f.write("Definition cases : list (env * expr * res value) :=\n %s.\n" % glist(cases).replace("; (Env", ";\n (Env"))
         if pcases or rcases:
-            f.write("From XV Require Import Syn.Parse Syn.Render Syn.LexThm.\n")
+            f.write("From XV Require Import Syn.Parse Syn.Render Syn.LexThm Syn.LexMin.\n")
             f.write("Definition pcases : list (env * str * res value) :=\n %s.\n" % glist(pcases).replace("; (Env", ";\n (Env"))
             f.write("Definition rcases : list (nat * expr * option str) :=\n %s.\n" % glist(rcases))
             f.write("Definition run_text (en : env) (t : str) : res value := match parse_string false t with Some e => exec en e | None => Err end.\n")
             f.write("Definition pbad := filter (fun c => match c with (en, t, want) => negb (res_eqb (run_text en t) want) end) pcases.\n")
             f.write("Definition ostr_eqb (a b : option str) := match a, b with Some x, Some y => str_eqb x y | None, None => true | _, _ => false end.\n")
-            f.write("Definition rbad := filter (fun c => match c with (m, e, want) => negb (ostr_eqb (canonical_text m e) want) end) rcases.\n")
+            f.write("Definition rbad := filter (fun c => match c with (m, e, want) => negb (ostr_eqb (canonical_text_ws m e) want) end) rcases.\n")
             f.write("Definition M := Eval vm_compute in (mismatches 0 cases, length pbad, length rbad).\nPrint M.\n")
         else:
             f.write("Definition M := Eval vm_compute in mismatches 0 cases.\nPrint M.\n")
